@@ -199,7 +199,8 @@ def make_bank(rng, cont, enc, paren_ok, export_src):
     pools = gen.Pools(words=words_pool(rng, enc, paren_ok),
                       pos=gen.POS + ['$.', '$,'],
                       morphs=gen.MORPHS + (['Nom.Sg.Masc.Pos.St', 'abcdefgh',
-                                            '3.Sg.Pres.Ind.Akt.x.y.z']
+                                            '3.Sg.Pres.Ind.Akt.x.y.z', 'None',
+                                            'nan', 'True']
                                            if rng.random() < 0.3 else []),
                       lemma=rng.random() < 0.5)
     k = rng.randint(1, 5)
